@@ -27,9 +27,30 @@ fn item_of(code: usize, marker_no: &mut usize) -> Item {
     }
 }
 
+/// what may stand between the beginning of a line and the `#` of a directive: whitespace and block
+/// comments (also several, also spanning lines, also with directive look-alikes inside)
+const LEAD: [&str; 8] = ["", "  ", "\t", "/* c */ ", "/* a */ /* b */ ", "/* x\n   y */ ", "/* l1 */\n/* l2 */ #dummy\n  /* l3 */\t", "/* no\n#endif\n#else\n*/ /* second */ "];
+
+fn lead_text(k: usize, n: usize) -> &'static str {
+    let l = LEAD[(k * 7 + n) % LEAD.len()];
+    // (a `#dummy` line is not a directive but would be an error in enabled text: left out)
+    if l.contains("#dummy") {
+        "/* l1 */\n/* l2 */\n  /* l3 */\t"
+    } else {
+        l
+    }
+}
+
 fn render(items: &[Item], nl: &str) -> String {
+    render_led(items, nl, false)
+}
+
+fn render_led(items: &[Item], nl: &str, lead: bool) -> String {
     let mut s = String::new();
-    for it in items {
+    for (k, it) in items.iter().enumerate() {
+        if lead && !matches!(it, Item::Marker(_)) {
+            s.push_str(lead_text(k, items.len()));
+        }
         match it {
             Item::Define(m) => s.push_str(&format!("#define {m}")),
             Item::Ifdef(m) => s.push_str(&format!("#ifdef {m}")),
@@ -109,7 +130,7 @@ const JUNK: [&str; 12] = [
 
 /// items with junk lines: `junk` = [(position in items, junk id)]; a junk line that the reference
 /// evaluation finds in an enabled region is dropped (it would rightly produce tokens and errors)
-fn check_with_junk(items: &[Item], junk: &[(usize, usize)], nl: &str) -> Verdict {
+fn check_with_junk(items: &[Item], junk: &[(usize, usize)], nl: &str, lead: bool) -> Verdict {
     // probe: a pseudo marker at each junk position tells whether that position is enabled
     let mut probe: Vec<Item> = Vec::new();
     for (i, it) in items.iter().enumerate() {
@@ -133,6 +154,9 @@ fn check_with_junk(items: &[Item], junk: &[(usize, usize)], nl: &str) -> Verdict
                 text.push_str(nl);
                 placed += 1;
             }
+        }
+        if lead && !matches!(it, Item::Marker(_)) {
+            text.push_str(lead_text(i, items.len()));
         }
         text.push_str(&render(std::slice::from_ref(it), nl));
     }
@@ -194,7 +218,7 @@ impl Property for C15 {
         "C15"
     }
     fn rule(&self) -> String {
-        "exhaustive: every sequence of length <=6 (thorough <=7) over {#define A, #define B, #ifdef A, #ifdef B, #ifndef A, #ifndef B, #else, #endif, marker `def m<i>;`}, one item per line; directives without a macro name (9 forms); random well-nested arrangements to depth 6 with LF/CRLF and trailing comments; the same with 1..4 lines of text that is not TableGen placed in disabled regions (unterminated string / string ending in a backslash / code fragment / block comment opened mid-line, stray closers, mid-line directives, faulty declarations; never starting with '#' or '/*'). RefPP classifies: well nested => delivered non-trivia tokens == selected markers and zero errors; unterminated at EOF / nameless directive => >=1 error; stray #else/#endif => not asserted. distinct = digest; non-trivial = nesting depth >= 2 or an #else inside a disabled region".into()
+        "exhaustive: every sequence of length <=6 (thorough <=7) over {#define A, #define B, #ifdef A, #ifdef B, #ifndef A, #ifndef B, #else, #endif, marker `def m<i>;`}, one item per line; directives without a macro name (9 forms); random well-nested arrangements to depth 6 with LF/CRLF, trailing comments, and whitespace / one or several block comments (also spanning lines, also containing directive look-alikes) in front of the directives; the same with 1..4 lines of text that is not TableGen placed in disabled regions (unterminated string / string ending in a backslash / code fragment / block comment opened mid-line, stray closers, mid-line directives, faulty declarations; never starting with '#' or '/*'). RefPP classifies: well nested => delivered non-trivia tokens == selected markers and zero errors; unterminated at EOF / nameless directive => >=1 error; stray #else/#endif => not asserted. distinct = digest; non-trivial = nesting depth >= 2 or an #else inside a disabled region".into()
     }
     fn assumptions(&self) -> Vec<String> {
         vec!["RefPP written from the Programmer's Reference: a macro is defined only by an enabled #define; no macro is predefined".into()]
@@ -243,7 +267,7 @@ impl Property for C15 {
                 }
                 let n = 1 + rng.below(4);
                 let junk: Vec<_> = (0..n).map(|_| json!([rng.below(codes.len() + 1), rng.below(JUNK.len())])).collect();
-                if !emit(json!({"kind": "pp-junk", "codes": codes, "junk": junk, "style": rng.below(2)})) {
+                if !emit(json!({"kind": "pp-junk", "codes": codes, "junk": junk, "style": rng.below(3)})) {
                     return;
                 }
             }
@@ -252,7 +276,7 @@ impl Property for C15 {
             for _ in 0..250 {
                 let mut codes = Vec::new();
                 random_nested(rng, 0, &mut codes);
-                let style = rng.below(3);
+                let style = rng.below(4);
                 if !emit(json!({"kind": "pp", "codes": codes, "style": style})) {
                     return;
                 }
@@ -271,14 +295,15 @@ impl Property for C15 {
                     Some(2) => " // trailing comment\n",
                     _ => "\n",
                 };
-                check(&items, &render(&items, nl))
+                // style 3: whitespace and block comments in front of the directives
+                check(&items, &render_led(&items, nl, case["style"].as_u64() == Some(3)))
             }
             Some("pp-junk") => {
                 let (Some(codes), Some(junk)) = (case["codes"].as_array(), case["junk"].as_array()) else { return Verdict::Skip("malformed-case") };
                 let codes: Vec<usize> = codes.iter().filter_map(|c| c.as_u64()).map(|c| c as usize % NITEMS).collect();
                 let items = codes_to_items(&codes);
                 let junk: Vec<(usize, usize)> = junk.iter().filter_map(|j| Some((j[0].as_u64()? as usize, j[1].as_u64()? as usize))).collect();
-                check_with_junk(&items, &junk, if case["style"].as_u64() == Some(1) { "\r\n" } else { "\n" })
+                check_with_junk(&items, &junk, if case["style"].as_u64() == Some(1) { "\r\n" } else { "\n" }, case["style"].as_u64() == Some(2))
             }
             Some("sem-pp") => embedded(case),
             Some("pp-nameless") => {
